@@ -20,4 +20,6 @@ let lookup (p : string) : Model.sexp -> Model.sexp =
   | "c08" -> Model.run_c08
   | "c09" -> Model.run_c09
   | "c12" -> Model.run_c12
+  | "c10" -> Model.run_c10
+  | "c11" -> Model.run_c11
   | _ -> failwith ("unknown property " ^ p)
